@@ -103,3 +103,20 @@ def params(draw, n_blocs=None, max_slate=3, allow_zero=True, min_slate=1, shuffl
         cohesion = {k: cohesion[k] for k in draw(st.permutations(blocs))}
         intervals = {k: intervals[k] for k in draw(st.permutations(blocs))}
     return {"slates": slates, "prop": prop, "cohesion": cohesion, "intervals": intervals}
+
+
+def decoy(params):
+    """The same blocs, slates and candidate names with different numbers (reversed increasing
+    supports; for two blocs the proportions and cohesion rows swapped).  Built and dropped between
+    constructing a generator and using it: a generator's output is a function of its own
+    parameters, whatever else has been constructed in the process."""
+    blocs = list(params["slates"])
+    dec = dict(params)
+    dec["intervals"] = {b: {b2: {c: (i + 2) ** 2 for i, c in enumerate(reversed(list(iv)))} for b2, iv in d.items()}
+                        for b, d in params["intervals"].items()}
+    if len(blocs) == 2:
+        x, y = blocs
+        dec["prop"] = {x: params["prop"][y], y: params["prop"][x]}
+        dec["cohesion"] = {x: {x: params["cohesion"][y][y], y: params["cohesion"][y][x]},
+                           y: {y: params["cohesion"][x][x], x: params["cohesion"][x][y]}}
+    return dec
